@@ -11,6 +11,8 @@ import NGF.Model.RefGrant
 import NGF.Model.RefGrantJudge
 import NGF.Proofs.RefGrant
 import NGF.Generated.RefGrantFacts
+import NGF.Model.PipelineRefs
+import NGF.Proofs.PipelineRefs
 
 namespace NGF.RefGrant
 
@@ -658,4 +660,271 @@ theorem store_as_modelled :
        "return changeType, c.latestGraph"] := by
   repeat' constructor
 
+open NGF.Generated in
+/-- backend reference resolution as `Model/PipelineRefs.resolveRef` transcribes it: `createBackendRef` up to and including
+the Service/port lookup (weight defaulting and clamping to 0, the reference check first, namespace defaulting, the
+BackendNotFound branch keeping `SvcNsName` with a zero `ServicePort`) and its final literal — the statements between
+(`verifyIPFamily`, `findBackendTLSPolicyForService`) are outside the model and not pinned —, the lookup functions, the
+weight range, the rule loop of `addBackendRefsToRules` and `newBackendGroup` (`toPBackend`). -/
+theorem resolution_as_modelled :
+    RefGrant.createBackendRefBody.take 10 =
+      ["weight := int32(1)",
+       "if ref.Weight != nil { if validateWeight(*ref.Weight) != nil { weight = 0 } else { weight = *ref.Weight } }",
+       "var backendRef BackendRef",
+       "valid, cond := validateRouteBackendRef(ref, sourceNamespace, refGrantResolver, refPath)",
+       "if !valid { backendRef = BackendRef{ Weight: weight, Valid: false, } return backendRef, &cond }",
+       "ns := sourceNamespace",
+       "if ref.BackendRef.Namespace != nil { ns = string(*ref.Namespace) }",
+       "svcNsName := types.NamespacedName{Name: string(ref.BackendRef.Name), Namespace: ns}",
+       "svcIPFamily, svcPort, err := getIPFamilyAndPortFromRef(ref.BackendRef, svcNsName, services, refPath)",
+       "if err != nil { backendRef = BackendRef{ Weight: weight, Valid: false, SvcNsName: svcNsName, ServicePort: v1.ServicePort{}, } cond := staticConds.NewRouteBackendRefRefBackendNotFound(err.Error()) return backendRef, &cond }"] ∧
+    RefGrant.createBackendRefBody.drop (RefGrant.createBackendRefBody.length - 2) =
+      ["backendRef = BackendRef{ SvcNsName: svcNsName, BackendTLSPolicy: backendTLSPolicy, ServicePort: svcPort, Valid: true, Weight: weight, }",
+       "return backendRef, nil"] ∧
+    RefGrant.getIPFamilyAndPortFromRefBody =
+      ["svc, ok := services[svcNsName]",
+       "if !ok { return []v1.IPFamily{}, v1.ServicePort{}, field.NotFound(refPath.Child(\"name\"), ref.Name) }",
+       "svcPort, err := getServicePort(svc, int32(*ref.Port))",
+       "if err != nil { return []v1.IPFamily{}, v1.ServicePort{}, err }",
+       "return svc.Spec.IPFamilies, svcPort, nil"] ∧
+    RefGrant.getServicePortBody =
+      ["for _, p := range svc.Spec.Ports { if p.Port == port { return p, nil } }",
+       "return v1.ServicePort{}, fmt.Errorf(\"no matching port for Service %s and port %d\", svc.Name, port)"] ∧
+    RefGrant.validateWeightBody =
+      ["const ( minWeight = 0 maxWeight = 1_000_000 )",
+       "if weight < minWeight || weight > maxWeight { return fmt.Errorf(\"must be in the range [%d, %d]\", minWeight, maxWeight) }",
+       "return nil"] ∧
+    RefGrant.addBackendRefsToRulesBody =
+      ["if !route.Valid { return }",
+       "for idx, rule := range route.Spec.Rules { if !rule.ValidMatches { continue } if !rule.Filters.Valid { continue } if len(rule.RouteBackendRefs) == 0 { continue } backendRefs := make([]BackendRef, 0, len(rule.RouteBackendRefs)) for refIdx, ref := range rule.RouteBackendRefs { refPath := field.NewPath(\"spec\").Child(\"rules\").Index(idx).Child(\"backendRefs\").Index(refIdx) routeNs := route.Source.GetNamespace() ref, cond := createBackendRef( ref, routeNs, refGrantResolver.refAllowedFrom(getRefGrantFromResourceForRoute(route.RouteType, routeNs)), services, refPath, backendTLSPolicies, npCfg, ) backendRefs = append(backendRefs, ref) if cond != nil { route.Conditions = append(route.Conditions, *cond) } } if len(backendRefs) > 1 { cond := validateBackendTLSPolicyMatchingAllBackends(backendRefs) if cond != nil { route.Conditions = append(route.Conditions, *cond) for i := range backendRefs { backendRefs[i].Valid = false } } } route.Spec.Rules[idx].BackendRefs = backendRefs }"] ∧
+    RefGrant.newBackendGroupBody =
+      ["var backends []Backend",
+       "if len(refs) > 0 { backends = make([]Backend, 0, len(refs)) }",
+       "for _, ref := range refs { backends = append(backends, Backend{ UpstreamName: ref.ServicePortReference(), Weight: ref.Weight, Valid: ref.Valid, VerifyTLS: convertBackendTLS(ref.BackendTLSPolicy), }) }",
+       "return BackendGroup{ Backends: backends, Source: sourceNsName, RuleIdx: ruleIdx, }"] := by
+  repeat' constructor
+
 end NGF.RefGrant
+
+/-! ## 8. Reference resolution INSIDE the pipeline model: grant gating as theorems over `gen (resolve c)`
+
+`PipelineRefs.resolve` (Model/PipelineRefs.lean) turns a cluster with HTTPRoute backendRefs, Services and ReferenceGrants
+into the fragment scenario of Model/Pipeline.lean; `genR c = Pipeline.gen (resolve c)` is the abstract NGINX
+configuration. `confTargets` lists every (upstream name, share) that some location — external or internal — proxies to,
+directly (share 10000) or through its split_clients variable. All statements are for ALL clusters `c`. -/
+
+namespace NGF.PipelineRefs
+open NGF.Pipeline
+open NGF.RefGrant (Grant BackendRef Permitted fromHTTPRoute refNs toCovers fromNames FromRes)
+
+/-- Every action of every location of `gen (resolve c)` is the default 404 or the resolved action of a rule of a valid
+route attached to the served Gateway (nothing else configures a location). -/
+theorem actions_are_rule_actions (c : ScenarioR) (a : Act) (ha : a ∈ confActs (genR c)) :
+    a = .status 404 ∨ ∃ g, winner (resolve c) = some g ∧ ∃ r ∈ c.routes, attached g r = true ∧
+      ∃ ru ∈ r.rules, ∃ port, a = actOf port (resolveAction c.grants c.services r.ns ru.action) :=
+  genR_acts ha
+
+/-- `crossns_backend_needs_grant_gen` (provenance form): whatever upstream a location of the generated configuration
+proxies to — directly or with any split share — other than `invalid-backend-ref` is `Justified`: in particular, if the
+backendRef that yields it leaves the route's namespace, a ReferenceGrant in the Service's namespace satisfies the spec
+for (HTTPRoute, route namespace) → (Service, name). -/
+theorem crossns_backend_needs_grant_gen (c : ScenarioR) (t : Str) (share : Nat)
+    (ht : (t, share) ∈ confTargets (genR c)) (hne : t ≠ invalidBackendRef) : Justified c t := by
+  simp only [confTargets, List.mem_flatMap] at ht
+  obtain ⟨a, ha, hta⟩ := ht
+  rcases genR_acts ha with rfl | ⟨g, hw, r, hr, hatt, ru, hru, port, rfl⟩
+  · simp [actTargets] at hta
+  · obtain ⟨refs, hact, ref, href, p, htp, hok, hf⟩ := resolveAction_targets hta hne
+    obtain ⟨hport, svc, hsvc, hp⟩ := findPort_some hf
+    obtain ⟨hmem, hsns, hsname⟩ := lookupSvc_some hsvc
+    refine ⟨g, hw, r, hr, hatt, ru, hru, refs, hact, ref, href, p, htp, hport, ⟨svc, hmem, hsns, hsname, hp⟩, ?_⟩
+    cases hns : ref.ns with
+    | none => left; simp [refNs, hns]
+    | some n =>
+      by_cases hnn : n = r.ns
+      · left; simp [refNs, hns, hnn]
+      · right
+        have := RefGrant.crossns_backend_needs_grant c.grants .http r.ns ref n hns hnn hok
+        simpa [refNs, hns, RefGrant.fromRoute] using this
+
+/-- `crossns_backend_needs_grant_gen` (named form, the statement of the task): if some location of `gen (resolve c)`
+proxies — directly or with a split share — to the upstream of Service `ns'/name`, then a valid attached route with a
+backendRef to exactly that Service contributed it, and if that route lives in another namespace than `ns'`, a
+ReferenceGrant in `ns'` satisfies the spec for (HTTPRoute, route namespace) → (Service, name).
+(`namesOK`: Kubernetes names contain no `_` (DNS-1123), so that `ns_name_port` identifies namespace and name.) -/
+theorem crossns_service_needs_grant_gen (c : ScenarioR) (hc : namesOK c = true) (ns' name : String)
+    (h1 : noUnderscore ns' = true) (h2 : noUnderscore name = true) (port share : Nat)
+    (ht : (upstreamOf ns' name port, share) ∈ confTargets (genR c)) :
+    ∃ g, winner (resolve c) = some g ∧ ∃ r ∈ c.routes, attached g r = true ∧ ∃ ru ∈ r.rules, ∃ refs,
+      ru.action = .forward refs ∧ ∃ ref ∈ refs, refNs ref r.ns = ns' ∧ ref.name = name ∧
+        (r.ns = ns' ∨ Permitted c.grants "Service" ns' name (fromHTTPRoute r.ns)) := by
+  obtain ⟨g, hw, r, hr, hatt, ru, hru, refs, hact, ref, href, p, htp, _, _, hj⟩ :=
+    crossns_backend_needs_grant_gen c _ share ht (upstreamOf_ne_invalid ns' name port)
+  obtain ⟨hrns, hrules⟩ := namesOK_spec hc r hr
+  obtain ⟨hname, hrefns⟩ := hrules ru hru refs hact ref href
+  have hnsok : noUnderscore (refNs ref r.ns) = true := by
+    cases hns : ref.ns with
+    | none => simpa [refNs, hns] using hrns
+    | some n => simpa [refNs, hns] using hrefns n hns
+  obtain ⟨e1, e2⟩ := upstreamOf_inj h1 h2 hnsok hname htp
+  refine ⟨g, hw, r, hr, hatt, ru, hru, refs, hact, ref, href, e1.symm, e2.symm, ?_⟩
+  rcases hj with hj | hj
+  · left; rw [← hj, ← e1]
+  · right; rw [e1, e2]; exact hj
+
+/-- `no_grant_gives_500`: a backendRef (at position `i` of a rule of a route in `r.ns`) that names another namespace
+without a grant satisfying the spec gets its share sent to `invalid-backend-ref` (NGINX answers 500) in the action every
+location of that rule takes: either the whole rule answers 500, or the distribution has one entry per backendRef and
+the `i`-th entry names `invalid-backend-ref` — whatever Services, other grants, other backendRefs, weights the cluster has. -/
+theorem no_grant_gives_500 (c : ScenarioR) (routeNs : String) (refs : List BackendRef) (i : Nat) (ref : BackendRef)
+    (hi : refs[i]? = some ref) (n : String) (hn : ref.ns = some n) (hne : n ≠ routeNs)
+    (hp : ¬ Permitted c.grants "Service" n ref.name (fromHTTPRoute routeNs)) (port : Nat) :
+    ∃ d, actOf port (resolveAction c.grants c.services routeNs (.forward refs)) = .proxy d ∧
+      (d = [(invalidBackendRef, 10000)] ∨ (d.length = refs.length ∧ ∃ share, d[i]? = some (invalidBackendRef, share))) := by
+  refine ⟨_, rfl, ?_⟩
+  have hv : RefGrant.routeRefVerdict c.grants .http routeNs ref ≠ .ok :=
+    fun hok => hp (RefGrant.crossns_backend_needs_grant c.grants .http routeNs ref n hn hne hok)
+  have hb : (refs.map fun ref => toPBackend (resolveRef c.grants c.services routeNs ref))[i]? =
+      some (toPBackend (resolveRef c.grants c.services routeNs ref)) := by
+    rw [List.getElem?_map, hi]; rfl
+  have hinv : (toPBackend (resolveRef c.grants c.services routeNs ref)).valid = false := by
+    rw [resolveRef_refused hv]; rfl
+  rcases distOf_invalid_at hb hinv with h | ⟨hl, hs⟩
+  · exact .inl h
+  · exact .inr ⟨by simpa using hl, hs⟩
+
+theorem permitted_iff_grantPermits (gs : List Grant) (kind ns name : String) (frm : FromRes) :
+    Permitted gs kind ns name frm ↔ ∃ g ∈ gs, grantPermits g kind ns name frm = true := by
+  rw [← RefGrant.permittedB_iff]
+  simp [RefGrant.permittedB, grantPermits]
+
+/-- removing every grant that permits the reference leaves it unpermitted (grants do not combine: `Permitted` needs ONE
+grant with a matching `from` and a covering `to`) -/
+theorem not_permitted_after_removal (gs : List Grant) (kind ns name : String) (frm : FromRes) :
+    ¬ Permitted (gs.filter fun g => !grantPermits g kind ns name frm) kind ns name frm := by
+  rw [permitted_iff_grantPermits]
+  rintro ⟨g, hg, hp⟩
+  have := (List.mem_filter.1 hg).2
+  simp [hp] at this
+
+/-- `revocation_effective_gen`: delete every ReferenceGrant that permits (HTTPRoute, `routeNs`) → (Service `n/name`) —
+whatever other grants, for other referrers, other Services or in other namespaces, remain. In the configuration generated
+from the remaining cluster, the share of every backendRef of a route of `routeNs` to that Service goes to
+`invalid-backend-ref`; and (names without `_`) if its upstream still appears anywhere, a route of ANOTHER namespace
+than `routeNs` — the Service's own, or one that still holds a grant — contributed it. -/
+theorem revocation_effective_gen (c : ScenarioR) (routeNs n name : String) (hne : n ≠ routeNs) :
+    let c' : ScenarioR := { c with grants := c.grants.filter fun g => !grantPermits g "Service" n name (fromHTTPRoute routeNs) }
+    (∀ (refs : List BackendRef) (i : Nat) (ref : BackendRef), refs[i]? = some ref → ref.ns = some n → ref.name = name →
+      ∀ port, ∃ d, actOf port (resolveAction c'.grants c'.services routeNs (.forward refs)) = .proxy d ∧
+        (d = [(invalidBackendRef, 10000)] ∨ (d.length = refs.length ∧ ∃ share, d[i]? = some (invalidBackendRef, share)))) ∧
+    (namesOK c = true → noUnderscore n = true → noUnderscore name = true → ∀ port share,
+      (upstreamOf n name port, share) ∈ confTargets (genR c') →
+        ∃ r ∈ c.routes, r.ns ≠ routeNs ∧ (r.ns = n ∨ Permitted c'.grants "Service" n name (fromHTTPRoute r.ns))) := by
+  intro c'
+  have hnp : ¬ Permitted c'.grants "Service" n name (fromHTTPRoute routeNs) :=
+    not_permitted_after_removal c.grants "Service" n name (fromHTTPRoute routeNs)
+  constructor
+  · intro refs i ref hi hn hname port
+    subst hname
+    exact no_grant_gives_500 c' routeNs refs i ref hi n hn hne hnp port
+  · intro hc h1 h2 port share ht
+    have hc' : namesOK c' = true := hc
+    obtain ⟨g, _, r, hr, _, ru, _, refs, _, ref, _, _, _, hj⟩ :=
+      crossns_service_needs_grant_gen c' hc' n name h1 h2 port share ht
+    refine ⟨r, hr, ?_, hj⟩
+    rintro rfl
+    rcases hj with hj | hj
+    · exact hne hj.symm
+    · exact hnp hj
+
+/-- Grants matter only through the verdicts on the backendRefs of valid attached routes: two grant sets that give
+every such reference the same verdict generate the same configuration. -/
+theorem grants_matter_through_verdicts (c : ScenarioR) (gs' : List Grant)
+    (h : ∀ g, winner (resolve c) = some g → ∀ r ∈ c.routes, attached g r = true → ∀ ru ∈ r.rules, ∀ refs,
+      ru.action = .forward refs → ∀ ref ∈ refs,
+        RefGrant.routeRefVerdict c.grants .http r.ns ref = RefGrant.routeRefVerdict gs' .http r.ns ref) :
+    genR { c with grants := gs' } = genR c := by
+  apply genR_congr c gs' c.services
+  intro g hw r hr hatt ru hru
+  cases hact : ru.action with
+  | redirect code sch hst p => rfl
+  | forward refs =>
+    simp only [resolveAction]
+    congr 1
+    apply List.map_congr_left
+    intro ref href
+    rw [resolveRef_congr (h g hw r hr hatt ru hru refs hact ref href) (fun _ => rfl)]
+
+/-- `grant_irrelevant_same_ns`: when every backendRef of every valid attached route stays in its route's namespace
+(namespace omitted or spelled out), ReferenceGrants are irrelevant: ANY two grant sets generate the same configuration. -/
+theorem grant_irrelevant_same_ns (c : ScenarioR) (gs' : List Grant)
+    (h : ∀ g, winner (resolve c) = some g → ∀ r ∈ c.routes, attached g r = true → ∀ ru ∈ r.rules, ∀ refs,
+      ru.action = .forward refs → ∀ ref ∈ refs, ref.ns = none ∨ ref.ns = some r.ns) :
+    genR { c with grants := gs' } = genR c :=
+  grants_matter_through_verdicts c gs' fun g hw r hr hatt ru hru refs hact ref href =>
+    RefGrant.same_namespace_needs_no_grant c.grants gs' .http r.ns ref (h g hw r hr hatt ru hru refs hact ref href)
+
+/-- Monotonicity, rule by rule: adding ReferenceGrants never removes a proxied backend. In the action of any rule,
+every entry of the distribution that names a real upstream keeps its position, its upstream and its share when grants
+are added (only `invalid-backend-ref` entries can turn into upstreams) — whatever the Services and weights. -/
+theorem adding_grants_keeps_backends (gs gs' : List Grant) (hsub : ∀ g ∈ gs, g ∈ gs') (svcs : List Service)
+    (routeNs : String) (refs : List BackendRef) (port : Nat) :
+    ∃ d d', actOf port (resolveAction gs svcs routeNs (.forward refs)) = .proxy d ∧
+      actOf port (resolveAction gs' svcs routeNs (.forward refs)) = .proxy d' ∧
+      ∀ (i : Nat) (t : Str) (share : Nat), d[i]? = some (t, share) → t ≠ invalidBackendRef → d'[i]? = some (t, share) :=
+  ⟨_, _, rfl, rfl, distOf_upgrades (resolve_upgrades hsub svcs routeNs refs)⟩
+
+/-- Monotonicity of the whole configuration: adding ReferenceGrants never removes a proxied backend — every (upstream,
+share) some location of `gen (resolve c)` proxies to is still proxied to (with the same share) in the configuration
+generated after ANY set of grants was added (servers, locations, match conditions and shares do not depend on grants;
+only `invalid-backend-ref` entries can turn into upstreams). -/
+theorem adding_grants_never_removes_backend_gen (c : ScenarioR) (gs' : List Grant) (hsub : ∀ g ∈ c.grants, g ∈ gs')
+    (t : Str) (share : Nat) (ht : (t, share) ∈ confTargets (genR c)) (hne : t ≠ invalidBackendRef) :
+    (t, share) ∈ confTargets (genR { c with grants := gs' }) :=
+  genR_targets_mono c gs' hsub ht hne
+
+/-! non-vacuity, by evaluation (`gen` sorts and de-duplicates by well-founded recursion, which `decide` cannot unfold):
+one Gateway, one HTTPRoute in `app` with a weighted rule — a cross-namespace backendRef to `backend/svc` and a local one -/
+
+def exGw : Gateway :=
+  { ns := "default".toList, name := "gw".toList, cls := "nginx".toList, age := 1,
+    listeners := [{ name := "http".toList, port := 80, host := [], fromAll := true }] }
+
+def exRef (ns : Option String) (name : String) (w : Option Int) : BackendRef := ⟨none, none, ns, name, some 80, w, 0⟩
+
+def exRoute (refs : List BackendRef) : RouteR :=
+  { ns := "app", name := "hr", age := 2, parents := [{ ns := "default".toList, name := "gw".toList, sectionName := none }],
+    hostnames := ["cafe.example.com".toList],
+    rules := [{ ms := [{ exact := false, path := "/".toList, method := [], headers := [], query := [] }], action := .forward refs }],
+    valid := true }
+
+def exGrant : Grant := ⟨"backend", "g", [⟨RefGrant.gatewayGroup, "HTTPRoute", "app"⟩], [⟨"", "Service", some "svc"⟩]⟩
+
+def exC : ScenarioR :=
+  { cls := "nginx".toList, ctlr := "ctl".toList, classes := [⟨"nginx".toList, "ctl".toList⟩], gateways := [exGw],
+    routes := [exRoute [exRef (some "backend") "svc" none, exRef none "local" none]],
+    services := [⟨"backend", "svc", [80]⟩, ⟨"app", "local", [8080, 80]⟩], grants := [exGrant] }
+
+-- granted: both upstreams are served (crossns_*_needs_grant_gen have a non-trivial instance) …
+#guard confTargets (genR exC) == [("backend_svc_80".toList, 5000), ("app_local_80".toList, 5000)]
+#guard namesOK exC && noUnderscore "backend" && noUnderscore "svc"
+-- … revoked (or never granted): that share goes to the 500 upstream, the local one is untouched (no_grant_gives_500,
+-- revocation_effective_gen, adding_grants_keeps_backends read from right to left)
+#guard (exC.grants.filter fun g => !grantPermits g "Service" "backend" "svc" (fromHTTPRoute "app")) == []
+#guard confTargets (genR { exC with grants := [] }) == [(invalidBackendRef, 5000), ("app_local_80".toList, 5000)]
+-- a grant for another referrer namespace / another name / placed in the referrer's namespace changes nothing
+#guard confTargets (genR { exC with grants := [⟨"backend", "g", [⟨RefGrant.gatewayGroup, "HTTPRoute", "other"⟩], [⟨"", "Service", none⟩]⟩,
+    ⟨"backend", "g2", [⟨RefGrant.gatewayGroup, "HTTPRoute", "app"⟩], [⟨"", "Service", some "svc2"⟩]⟩,
+    ⟨"app", "g3", [⟨RefGrant.gatewayGroup, "HTTPRoute", "app"⟩], [⟨"", "Service", none⟩]⟩] })
+  == [(invalidBackendRef, 5000), ("app_local_80".toList, 5000)]
+-- the only backendRef of a rule unpermitted: the rule answers 500; a missing Service / port likewise
+#guard confTargets (genR { exC with grants := [], routes := [exRoute [exRef (some "backend") "svc" none]] }) == [(invalidBackendRef, 10000)]
+#guard confTargets (genR { exC with services := [⟨"app", "local", [8080]⟩] }) == [(invalidBackendRef, 5000), (invalidBackendRef, 5000)]
+-- same-namespace references only: grants are irrelevant (grant_irrelevant_same_ns)
+#guard confTargets (genR { exC with routes := [exRoute [exRef (some "app") "local" none]], grants := [] }) == [("app_local_80".toList, 10000)]
+
+example : ¬ Permitted [] "Service" "backend" "svc" (fromHTTPRoute "app") := by simp [Permitted]
+example : Permitted exC.grants "Service" "backend" "svc" (fromHTTPRoute "app") :=
+  (RefGrant.permittedB_iff _ _ _ _ _).1 (by decide)
+
+end NGF.PipelineRefs
